@@ -28,7 +28,7 @@ OBLIGATIONS = [
     # response encoder
     'C20.nib_gen', 'C20.hexChar_gen', 'C20.resp_step', 'C20.resp_step_ok', 'C20.resp_run_inv', 'C20.resp_start',
     'C20.resp_run', 'C20.resp_prefix', 'C20.resp_complete', 'C20.resp_live', 'C20.resp_string', 'C20.resp_idle_silent',
-    'C20.resp_busy_ignores_inputs', 'C20.resp_size_zero_raises', 'C20.hexUpper_length', 'C20.hexUpper_roundtrip',
+    'C20.resp_busy_ignores_inputs', 'C20.resp_size_zero', 'C20.hexUpper_length', 'C20.hexUpper_roundtrip',
     'C20.response_unmasked',
 ]
 
@@ -385,6 +385,15 @@ def _first_diff(a, b):
 
 
 # ------------------------------------------------------------------------------------------------
+def fail_resp(res, what, rp):
+    """size 0 used to be the known finding C20-resp-size-zero (fixed in /repo 21add98): a failure there is a recurrence and
+    must be a VIOLATION, so it bypasses the known-findings matching whatever status known_findings.json still carries"""
+    if rp.get('size') == 0:
+        res.failures.append({'what': what + ' [recurrence of C20-resp-size-zero, fixed in 21add98]', 'replay': rp})
+    else:
+        res.fail(what, rp)
+
+
 def run_resp_real(wv, wvin, ins):
     """ins: list of (start, vin, size, ready). returns (rows, transfers, raised_at)"""
     R = RealResp(wv, wvin)
@@ -430,7 +439,9 @@ def resp_stream(res, tier, rng, driver_ok):
         for code in range(1 << L):
             rd = [(code >> t) & 1 for t in range(L)]
             cases.append(dict(wv=8, wvin=8, s=1, v=v, ready=rd, kind='exh-ready'))
-    for s, vs in ((1, range(16)), (2, range(256)), (3, range(0, 4096, 1 if tier != 'quick' else 13))):
+            if v == 0:
+                cases.append(dict(wv=8, wvin=8, s=0, v=5, ready=rd, kind='exh-ready'))
+    for s, vs in ((0, [0, 5, 255]), (1, range(16)), (2, range(256)), (3, range(0, 4096, 1 if tier != 'quick' else 13))):
         for v in vs:
             for rd in ([1] * (2 * s + 6), [t % 2 for t in range(4 * s + 12)], [0, 1, 1, 0] * (s + 3)):
                 cases.append(dict(wv=8, wvin=12, s=s, v=v, ready=rd, kind='exh-value'))
@@ -438,7 +449,7 @@ def resp_stream(res, tier, rng, driver_ok):
     for i in range(nrand):
         r = rng.fork(('resp', i))
         wvin = r.choice([1, 4, 8, 16, 32, 32, 33, 64, 80])
-        s = r.choice([1, 1, 2, 3, 4, 8, 8, 9, 16, 17, r.randint(1, 40)])
+        s = r.choice([0, 1, 1, 2, 3, 4, 8, 8, 9, 16, 17, r.randint(0, 40)])
         v = r.bits(wvin)
         wv = r.choice([8, 8, 8, 7, 9, 6, 4, 1])
         n = r.choice([2 * s + 4, 3 * s + 8, 6 * s + 20, r.randint(1, 2 * s + 4)])
@@ -479,13 +490,13 @@ def resp_stream(res, tier, rng, driver_ok):
                       expected=exp, observed=tr, text=''.join(chr(c) for c in tr))
             done = raised is None and rows and rows[-1][1] == 0
             if raised is not None:
-                res.fail('CMDResponse.clock raised ValueError', dict(rp, raised_at=raised))
+                fail_resp(res, 'CMDResponse.clock raised ValueError', dict(rp, raised_at=raised))
             elif tr != exp[:len(tr)]:
-                res.fail('response characters are not a prefix of "=" ++ hex digits MSB first ++ "!"', rp)
+                fail_resp(res, 'response characters are not a prefix of "=" ++ hex digits MSB first ++ "!"', rp)
             elif done and tr != exp:
-                res.fail('encoder returned to idle without sending the whole response', rp)
+                fail_resp(res, 'encoder returned to idle without sending the whole response', rp)
             elif ones >= 2 * s + 4 and not (done and tr == exp):
-                res.fail('consumer was ready 2s+4 times but the response is incomplete', rp)
+                fail_resp(res, 'consumer was ready 2s+4 times but the response is incomplete', rp)
             res.hist('resp_outcome', 'complete' if done else 'stalled')
             if len(res.cov['samples']) < 8 and cs['kind'] == 'rand':
                 res.sample(rp)
@@ -517,19 +528,15 @@ def resp_stream(res, tier, rng, driver_ok):
 
 
 def size_zero_witness(res):
-    """the excluded point of resp_string (size = 0): Python raises ValueError (negative shift count). Reported as a
-    KNOWN-FINDING once known_findings.json lists C20-resp-size-zero; until then recorded in the evidence notes."""
-    ins = [(1, 5, 0, 1), (0, 0, 0, 1), (0, 0, 0, 1), (0, 0, 0, 1)]
+    """regression test for the former finding C20-resp-size-zero (fixed in /repo 21add98; Lean: C20.resp_size_zero): start=1, vin=5,
+    size=0 must send "=!" and return to idle; before the fix CMDResponse.clock raised ValueError at cycle 2. Recurrence = VIOLATION."""
+    ins = [(1, 5, 0, 1)] + [(0, 0, 0, 1)] * 6
     rows, tr, raised = run_resp_real(8, 8, ins)
-    rp = dict(stream='resp', wv=8, wvin=8, size=0, v=5, ready='111', expected=response_spec(8, 0, 5), observed=tr, raised_at=raised)
-    bad = raised is not None or tr != rp['expected']
-    res.hist('size_zero_witness', 'still-fails' if bad else 'fixed')
+    rp = dict(stream='resp', wv=8, wvin=8, size=0, v=5, ready='111111', expected=response_spec(8, 0, 5), observed=tr, raised_at=raised)
+    bad = raised is not None or tr != rp['expected'] or not rows or rows[-1][1] != 0
+    res.count(('size-zero-regression',), hist={'size_zero_regression': 'FAILS' if bad else 'passes'})
     if bad:
-        if any(k.get('id') == 'C20-resp-size-zero' and k.get('status') == 'known' for k in load_known()):
-            res.fail('CMDResponse with size 0 raises ValueError (negative shift count) instead of sending "=!"', rp)
-        else:
-            res.notes.append('size=0 witness (outside the proved domain 1 <= size): CMDResponse.clock raises ValueError '
-                             f'at cycle {raised}; proposed known finding C20-resp-size-zero (notes/C20.md)')
+        fail_resp(res, 'CMDResponse with size 0 does not send "=!" (raised ValueError before 21add98)', rp)
     return rp
 
 
@@ -669,11 +676,11 @@ def main(res, tier, rng, replay):
         'the producer is ready/valid compliant: once valid is raised, valid and c are held until the edge at which ready is 1',
         'requests: the theorems cover streams of well-formed commands (upper-case hex digits, any count incl. none) separated by any '
         'characters outside the command alphabet; malformed streams are covered by the model-vs-code correspondence only',
-        'response: 1 <= size (size = 0 makes CMDResponse.clock raise ValueError: resp_size_zero_raises); start_resp is a one-cycle pulse '
+        'response: every size incl. 0 (resp_size_zero; size 0 raised ValueError before /repo 21add98); start_resp is a one-cycle pulse '
         'that arrives while the encoder is idle (a pulse while busy is ignored: resp_busy_ignores_inputs); the consumer drives an '
         'arbitrary ready sequence that does not depend combinationally on valid',
-        'Py.shrT totalises a negative shift count; the guard Hil.respRaises marks exactly the calls where Python raises, and the '
-        'correspondence checks model none <-> real ValueError',
+        'Py.shrT totalises a negative shift count; the guard Hil.respRaises marks the only call where Python can still raise (state 4 with '
+        'negative temp_size, unreachable from power-up by resp_run); the correspondence checks model none <-> real ValueError',
     ]
 
 
